@@ -343,6 +343,9 @@ func runCheck(p *prop, s *stats, c any) (unexplained []Fail) {
 	if f := runUnderOtherProcs(p, s, c); len(f) > 0 {
 		return f
 	}
+	if f := runAfterMalformed(p, s, c); len(f) > 0 {
+		return f
+	}
 	if p.related == nil {
 		return nil
 	}
@@ -361,6 +364,45 @@ func runCheck(p *prop, s *stats, c any) (unexplained []Fail) {
 		again[i].Msg = "the case passed when checked first, but fails after calls with related arguments: " + again[i].Msg
 	}
 	return again
+}
+
+var malformedEvals int
+
+// runAfterMalformed: a refused call must leave nothing behind. Every 8th evaluation, after the case passed, every
+// ID-taking function of the library is called with malformed IDs whose leading fields are well-formed and name another
+// voxel (too few / too many fields, a non-integer field late in the string) - all of them are refused - and the case is
+// checked again; a failure carries the kind prefix "after-malformed:" (a parser that stores fields as it reads them into
+// a scratch object it later trusts, a cache entry written before validation finished).
+func runAfterMalformed(p *prop, s *stats, c any) []Fail {
+	malformedEvals++
+	if (malformedEvals%8 != 0 && os.Getenv("VERIF_MODE") != "replay") || p.noRevisit {
+		return nil
+	}
+	poisonWithMalformedIDs()
+	Count("rechecked_after_malformed_calls", 1)
+	f := runCheckOnce(p, s, c)
+	for i := range f {
+		f[i].Kind = "after-malformed:" + f[i].Kind
+		f[i].Msg = "the case passed when checked first, but fails after refused calls with malformed IDs: " + f[i].Msg
+	}
+	return f
+}
+
+var poisonExt = []string{"20/1/2", "20/1/2/20", "20/1/2/20/3/9", "6/1/x/20/3", "6/1/2/20/x", "6/1/2/x/3", "7/5/6/7/"}
+var poisonSpatial = []string{"20/3/1", "20/3/1/2/9", "6/x/1/2", "6/3/1/x", "7/3/5/"}
+
+func poisonWithMalformedIDs() {
+	var sink Fails
+	for i := range c15IDTargets {
+		tg := &c15IDTargets[i]
+		bad := poisonExt
+		if tg.arity == 4 {
+			bad = poisonSpatial
+		}
+		for _, b := range bad {
+			c15CallOnly(&CaseC15{Fn: tg.name, IDs: []string{b}, IDs2: []string{b}, Z: []int64{3, 3}}, &sink)
+		}
+	}
 }
 
 // procsWanted is implemented by cases that ask to be checked under every other scheduler width (large outputs, where
@@ -472,7 +514,7 @@ func writeReplayH(p *prop, s *stats, c any, fails []Fail, tag string, hist *repl
 	cb, _ := json.Marshal(c)
 	rf := replayFile{Property: p.id, Case: cb, Fails: fails, History: hist}
 	if hist != nil {
-		rf.Note = "history-dependent: the case passes in a fresh process; the replay repeats the generated run that precedes it"
+		rf.Note = "replay: the case is checked alone first; if it passes (history-dependent failure) the generated run that preceded it is repeated (rapid seed, number of evaluations)"
 	}
 	b, _ := json.MarshalIndent(rf, "", " ")
 	_ = os.WriteFile(path, b, 0o644)
